@@ -571,36 +571,85 @@ def rule_r2(chk) -> None:
         off = cfg.must_pass([cfg.entry], cfg.nodes_of(enclosing_stmt(c)), [n for l in load for n in cfg.nodes_of(enclosing_stmt(l))], labels_excluded=X)
         chk.ob("C27.R2", "the journal is loaded before the expected key is looked up", not off, m=m, node=c, fn=fn, instance="load-before-lookup",
                reason="next_expected_key() is reachable without journal.load(): a recovered run sees an empty journal and records a new order")
-    # every pending coroutine started, with a yield between starts
-    loops = [s for s in walk_shallow(fn) if isinstance(s, (ast.For, ast.AsyncFor)) and isinstance(s.iter, ast.Name) and s.iter.id == pending]
-    comps = [c for c in ast.walk(fn) if isinstance(c, (ast.ListComp, ast.GeneratorExp)) and any(isinstance(gn.iter, ast.Name) and gn.iter.id == pending for gn in c.generators)]
+    # every pending coroutine started, with a yield between starts.  The start loop is in wait_for_next_task itself or in a function of
+    # the same class / module that it awaits in place with `pending` as an argument (one call deep; a static / class method too)
+    loops, comps = _pending_iterations(fn, pending)
+    lfn, lcfg, site = fn, cfg, None
     if not loops and not comps:
-        raise AnchorError("C27.R2: wait_for_next_task does not iterate over its pending coroutines")
+        found = _start_helper(m, ad, fn, pending)
+        if found is None:
+            raise AnchorError("C27.R2: wait_for_next_task does not iterate over its pending coroutines (neither itself nor in a function it hands them to)")
+        site, lfn, hparam = found
+        lcfg = CFG(lfn)
+        loops, comps = _pending_iterations(lfn, hparam)
     if loops:
         lp = loops[0]
-        hdr = cfg.nodes_of(lp)
+        hdr = lcfg.nodes_of(lp)
         starts = [c for c in ast.walk(lp) if isinstance(c, ast.Call) and last(call_name(c)) in ("create_task", "ensure_future")]
-        sleeps = [c for c in ast.walk(lp) if isinstance(c, ast.Call) and last(call_name(c)) == "sleep" and c.args and isinstance(c.args[0], ast.Constant) and c.args[0].value == 0]
-        filt = any(isinstance(x, (ast.If, ast.Continue, ast.Break)) for x in ast.walk(lp) if x is not lp)
-        chk.ob("C27.R2", "every pending coroutine is started (no filter / early exit in the start loop)", bool(starts) and not filt, m=m, node=lp, fn=fn, instance="start-all",
+        sleeps = [c for c in ast.walk(lp) if isinstance(c, ast.Call) and last(call_name(c)) == "sleep" and c.args and isinstance(c.args[0], ast.Constant) and c.args[0].value == 0
+                  and isinstance(parent(c), ast.Await)]
+        filt = any(isinstance(x, (ast.If, ast.Continue, ast.Break, ast.Return)) for x in ast.walk(lp) if x is not lp)
+        chk.ob("C27.R2", "every pending coroutine is started (no filter / early exit in the start loop)", bool(starts) and not filt, m=m, node=lp, fn=lfn, instance="start-all",
                reason="the start loop skips or stops: the runner raises on the started/pending mismatch, or function ids shift between run and recovery")
-        snodes = [n for c in sleeps for n in cfg.nodes_of(enclosing_stmt(c))]
+        snodes = [n for c in sleeps for n in lcfg.nodes_of(enclosing_stmt(c))]
         bad = []
         for c in starts:
-            for n in cfg.nodes_of(enclosing_stmt(c)):
-                r = cfg.reach([n], blocked=snodes, include_starts=False, labels_excluded=X)
+            for n in lcfg.nodes_of(enclosing_stmt(c)):
+                r = lcfg.reach([n], blocked=snodes, include_starts=False, labels_excluded=X)
                 if any(h in r for h in hdr):
                     bad.append(c)
-        chk.ob("C27.R2", "a yield (`await asyncio.sleep(0)`) separates consecutive starts (deterministic DBOS function-id order)", bool(sleeps) and not bad, m=m, node=lp, fn=fn,
+        chk.ob("C27.R2", "a yield (`await asyncio.sleep(0)`) separates consecutive starts (deterministic DBOS function-id order)", bool(sleeps) and not bad, m=m, node=lp, fn=lfn,
                instance="start-yield", reason="two pending coroutines can be started without a yield between them: their synchronous preambles take DBOS function ids in scheduler order")
+        if site is not None:
+            # the loop lives in a helper: it must run as part of this call (awaited in place, not spawned / deferred), and the helper must
+            # reach its loop on every normal path
+            in_place = isinstance(parent(site), ast.Await) and isinstance(lfn, ast.AsyncFunctionDef)
+            skips = lcfg.must_pass([lcfg.entry], [lcfg.exit], hdr, labels_excluded=X)
+            chk.ob("C27.R2", f"the start loop in `{lfn.name}` runs in place (awaited directly, reached on every normal path of the helper)", in_place and not skips, m=m, node=site, fn=fn,
+                   instance="start-helper-in-place",
+                   reason=(f"`{lfn.name}` returns without reaching its start loop" if in_place else f"`{ast.unparse(site)[:60]}` is not awaited in place: the coroutines are started while (or after) the adapter already waits"))
+            hdr = cfg.nodes_of(enclosing_stmt(site))
         for r in rets:
             off = cfg.must_pass([cfg.entry], cfg.nodes_of(r), hdr, labels_excluded=X)
             if off:
                 chk.ob("C27.R2", "no return before the pending coroutines were started", False, m=m, node=r, fn=fn, instance=f"start-before-return:{_slot(cfg, r)}",
                        reason="a return is reachable before the start loop")
     else:
-        chk.ob("C27.R2", "a yield (`await asyncio.sleep(0)`) separates consecutive starts (deterministic DBOS function-id order)", False, m=m, node=comps[0], fn=fn, instance="start-yield",
+        chk.ob("C27.R2", "a yield (`await asyncio.sleep(0)`) separates consecutive starts (deterministic DBOS function-id order)", False, m=m, node=comps[0], fn=lfn, instance="start-yield",
                reason="pending coroutines are started in a comprehension, without a yield between starts")
+
+
+def _pending_iterations(f: ast.AST, pname: str) -> tuple[list[ast.AST], list[ast.AST]]:
+    loops = [s for s in walk_shallow(f) if isinstance(s, (ast.For, ast.AsyncFor)) and isinstance(s.iter, ast.Name) and s.iter.id == pname]
+    comps = [c for c in ast.walk(f) if isinstance(c, (ast.ListComp, ast.GeneratorExp)) and any(isinstance(gn.iter, ast.Name) and gn.iter.id == pname for gn in c.generators)]
+    return loops, comps
+
+
+def _start_helper(m, cls: ast.ClassDef, fn: ast.AST, pending: str) -> tuple[ast.Call, ast.AST, str] | None:
+    """A call in `fn` that hands the `pending` parameter to a function of the same class (through self / cls / the class name; plain,
+    static or class method) or of the same module, whose receiving parameter is iterated there.  Returns (call, callee, parameter)."""
+    for c in sorted((c for c in ast.walk(fn) if isinstance(c, ast.Call)), key=lambda c: (c.lineno, c.col_offset)):
+        slots = [(i, a) for i, a in enumerate(c.args) if isinstance(a, ast.Name) and a.id == pending]
+        kws = [k.arg for k in c.keywords if k.arg and isinstance(k.value, ast.Name) and k.value.id == pending]
+        if not slots and not kws:
+            continue
+        callee, shift = None, 0
+        if isinstance(c.func, ast.Attribute) and isinstance(c.func.value, ast.Name) and c.func.value.id in ("self", "cls", cls.name):
+            callee = method(cls, c.func.attr)
+            if callee is not None:
+                static = any((dotted(d) or "") == "staticmethod" for d in callee.decorator_list)
+                shift = 0 if static or (c.func.value.id == cls.name and not any((dotted(d) or "") == "classmethod" for d in callee.decorator_list)) else 1
+        elif isinstance(c.func, ast.Name):
+            callee = m.functions.get(c.func.id)
+        if callee is None or any(isinstance(a, ast.Starred) for a in c.args):
+            continue
+        params = [a.arg for a in callee.args.posonlyargs + callee.args.args]
+        names = [params[i + shift] for i, _a in slots if i + shift < len(params)] + [k for k in kws if k in params + [a.arg for a in callee.args.kwonlyargs]]
+        for pn in names:
+            loops, comps = _pending_iterations(callee, pn)
+            if loops or comps:
+                return c, callee, pn
+    return None
 
 
 def _slot(cfg: CFG, r: ast.Return) -> str:
@@ -609,14 +658,17 @@ def _slot(cfg: CFG, r: ast.Return) -> str:
     first = call.args[0] if call.args else kwarg(call, "completed")
     if isinstance(first, ast.Constant) and first.value is None:
         in_handler = any(isinstance(a, ast.ExceptHandler) for a in _ancestors(r))
-        guards = set()
+        # "timeout": the return is selected by a test over the outcome of a timed wait (`done, _ = await asyncio.wait(…)` … `if not done`);
+        # "nothing-to-wait-for": it is selected before anything was awaited (dependence, not the names of the locals)
+        from ..astx import dep_slice
+
+        after_wait = False
         for n in cfg.nodes_of(r):
-            for t, lab in cfg.guards(n):
-                if t.kind == "test":
-                    for x in ast.walk(t.ast.test):
-                        if isinstance(x, ast.Name):
-                            guards.add(x.id)
-        return "timeout-in-handler" if in_handler else ("nothing-to-wait-for" if "tasks" in guards and "done" not in guards else "timeout")
+            for t, _lab in cfg.guards(n):
+                if t.kind == "test" and hasattr(t.ast, "test"):
+                    if any(last(call_name(c)) in ("wait", "wait_for") for c in dep_slice(cfg.fn, t.ast.test).calls()):
+                        after_wait = True
+        return "timeout-in-handler" if in_handler else ("timeout" if after_wait else "nothing-to-wait-for")
     return "task:" + (first.id if isinstance(first, ast.Name) else "expr")
 
 
@@ -891,6 +943,17 @@ _TJ = "packages/llama-agents-dbos/src/llama_agents/dbos/journal/task_journal.py"
 _DBI = "packages/llama-agents-dbos/src/llama_agents/dbos/idle_release.py"
 _PR = "packages/llama-agents-server/src/llama_agents/server/_runtime/persistence_runtime.py"
 
+_WF_HEAD = '    async def wait_for_next_task(\n        self,\n        running: list[NamedTask],\n        pending: list[PendingStart],\n        timeout: float | None = None,\n    ) -> WaitForNextTaskResult:\n        """Wait for and return the next task that should complete.\n\n        Starts each pending coroutine with an ``asyncio.sleep(0)`` yield between\n        them so that every task\'s synchronous preamble (including DBOS function_id\n        acquisition) runs in deterministic order.\n\n        During replay, waits for the specific task that completed in the original run.\n        During fresh execution, waits for any task and records the completion order.\n\n        Args:\n            running: Already-started tasks from previous iterations.\n            pending: Coroutines to start this iteration.\n            timeout: Timeout in seconds, None for no timeout.\n\n        Returns:\n            WaitForNextTaskResult with completed task and newly started NamedTasks.\n        """\n        # Resolve pool before journal creation (needed for postgres)\n        if self._pool_provider is not None and self._resolved_pool is None:\n            await self._resolve_pool()\n\n        # Load journal before starting pending coroutines so the orphan purge\n        # runs before new fids are consumed.\n        journal = self._get_or_create_journal()\n        await journal.load()\n        expected_key = journal.next_expected_key()\n\n        if expected_key is None and not self._orphan_purge_done:\n            await self._purge_orphaned_operations(journal)\n\n        # Start each pending coroutine with a yield between each to ensure\n        # deterministic function_id ordering for DBOS replay.\n'
+_WF_LOOP = '        started: list[NamedTask] = []\n        for p in pending:\n            started.append(p.start(asyncio.create_task(p.coro)))\n            await asyncio.sleep(0)\n'
+
+def _wf_helper_twin(name: str, expect: str | None, *, deco: str = "    @staticmethod\n", params: str = "pending: list[PendingStart]", call: str = "await self._start_pending(pending)",
+                    pre: str = "", body: str = "            task = asyncio.create_task(pending_start.coro)\n            started.append(pending_start.start(task))\n            await asyncio.sleep(0)\n") -> Twin:
+    """wait_for_next_task with its start loop moved into a helper of the class (defined just before it)."""
+    helper = (deco + f"    async def _start_pending({params}) -> list[NamedTask]:\n        started: list[NamedTask] = []\n" + pre
+              + "        for pending_start in pending:\n" + body + "        return started\n\n")
+    return Twin(name, _RT, _WF_HEAD + _WF_LOOP, helper + _WF_HEAD + f"        started = {call}\n", expect)
+
+
 TWINS = [
     Twin("R2 replay wait without shield", _RT, "                    await asyncio.wait_for(asyncio.shield(target_task), timeout=timeout)", "                    await asyncio.wait_for(target_task, timeout=timeout)", "C27.R2"),
     Twin("R2 benign: shield bound to a local first", _RT, "                    await asyncio.wait_for(asyncio.shield(target_task), timeout=timeout)", "                    guarded = asyncio.shield(target_task)\n                    await asyncio.wait_for(guarded, timeout=timeout)", None),
@@ -921,6 +984,16 @@ TWINS = [
     Twin("R2 lookup before load", _RT, "        await journal.load()\n        expected_key = journal.next_expected_key()\n", "        expected_key = journal.next_expected_key()\n        await journal.load()\n", "C27.R2"),
     Twin("R2 no yield between starts", _RT, "            started.append(p.start(asyncio.create_task(p.coro)))\n            await asyncio.sleep(0)\n", "            started.append(p.start(asyncio.create_task(p.coro)))\n", "C27.R2"),
     Twin("R2 yield only after the last start", _RT, "            started.append(p.start(asyncio.create_task(p.coro)))\n            await asyncio.sleep(0)\n", "            started.append(p.start(asyncio.create_task(p.coro)))\n        await asyncio.sleep(0)\n", "C27.R2"),
+    _wf_helper_twin("R2 benign: start loop in a static async helper awaited in place", None),
+    _wf_helper_twin("R2 benign: start loop in a plain method awaited in place", None, deco="", params="self, pending: list[PendingStart]"),
+    _wf_helper_twin("R2 benign: start loop in a static helper reached through the class name, keyword argument", None, call="await InternalDBOSAdapter._start_pending(pending=pending)"),
+    _wf_helper_twin("R2 helper: no yield between starts", "C27.R2", body="            task = asyncio.create_task(pending_start.coro)\n            started.append(pending_start.start(task))\n"),
+    _wf_helper_twin("R2 helper: filter in the start loop", "C27.R2",
+                    body="            if pending_start.coro is None:\n                continue\n            task = asyncio.create_task(pending_start.coro)\n            started.append(pending_start.start(task))\n            await asyncio.sleep(0)\n"),
+    _wf_helper_twin("R2 helper: returns before its loop", "C27.R2", pre="        if len(pending) > 1:\n            return started\n"),
+    _wf_helper_twin("R2 helper: spawned instead of awaited in place", "C27.R2", call="await asyncio.ensure_future(self._start_pending(pending))"),
+    _wf_helper_twin("R2 helper: stops after the first start", "C27.R2",
+                    body="            task = asyncio.create_task(pending_start.coro)\n            started.append(pending_start.start(task))\n            await asyncio.sleep(0)\n            return started\n"),
     Twin("R2 double advance", _RT, "                journal.advance()\n                return WaitForNextTaskResult(target_task, started)\n", "                journal.advance()\n                if target_task.done():\n                    journal.advance()\n                return WaitForNextTaskResult(target_task, started)\n", "C27.R2"),
     Twin("R2 benign: journal bound under another name", _RT, "        journal = self._get_or_create_journal()\n        await journal.load()\n        expected_key = journal.next_expected_key()\n\n        if expected_key is None and not self._orphan_purge_done:\n            await self._purge_orphaned_operations(journal)\n",
          "        task_journal = journal = self._get_or_create_journal()\n        await journal.load()\n        expected_key = journal.next_expected_key()\n\n        if expected_key is None and not self._orphan_purge_done:\n            await self._purge_orphaned_operations(task_journal)\n", None),
